@@ -189,15 +189,43 @@ class Run:
                         self.inconclusive(construct, f'{what}: not found in {fi.qualname} but a match exists in its callee '
                                                      f'{cal.qualname} (element moved into a helper: idiom not modelled)')
                         return False
+        why = self._rewritten(construct, fi)
+        if why is not None:
+            self.inconclusive(construct, f'{what}: not found in the form this rule reads, and the code it reads has been rewritten ({why}): not decided')
+            return False
         self.violation(construct, f'missing:{what}', f'required element missing: {what} (found {found}, need {minimum}; '
                        f'not in the function nor in any package function it calls)', where=where or (fi.where if fi else ''))
         return False
 
-    def check(self, cond: bool, construct: str, key: str, what_ok: str, what_bad: str, **kw) -> bool:
+    def _rewritten(self, construct: str, fi=None) -> Optional[str]:
+        """Why a mismatch found in `construct` is not to be trusted as a finding: the function has been rewritten since the
+        reference tree (Repo.rewritten).  A rule that compares code with the form it expects says VIOLATION only where the code
+        is still what it was, give or take an edit; on rewritten code a mismatch means 'idiom not read'."""
+        try:
+            for c in ([construct] + ([fi.qualname] if fi is not None else [])):
+                r = self.repo.rewritten(c)
+                if r is not None:
+                    return r
+        except Exception:
+            return None
+        return None
+
+    def check(self, cond: bool, construct: str, key: str, what_ok: str, what_bad: str, decided: bool = False, **kw) -> bool:
+        """`decided`: the rule read the construct completely (values, not shapes) and the failure names a positively wrong
+        element - reported as a VIOLATION wherever it is found.  Otherwise a failure is a mismatch between the code and the form
+        the rule expects: a VIOLATION on code that is as it was in the reference tree (give or take an edit), INCONCLUSIVE on code
+        that has been rewritten since."""
         if cond:
             self.ok(construct, what_ok, detail=kw.get('detail'))
         else:
-            self.violation(construct, key, what_bad, **kw)
+            why = None if decided else self._rewritten(construct)
+            if why is not None and any(k['property'] == self.prop and k['rule'] == (kw.get('rule') or self.current_rule) and k['construct'] == construct and k['key'] == key
+                                       for k in self.known):
+                why = None          # a finding on file: reported as such, rewritten or not
+            if why is not None:
+                self.inconclusive(construct, f'{what_bad} - but the code this rule reads has been rewritten ({why}): a mismatch with the expected form is not a finding there')
+            else:
+                self.violation(construct, key, what_bad, **kw)
         return cond
 
     # -- running rules -------------------------------------------------------
